@@ -27,6 +27,33 @@ DICT = [(0, {0: 0.7, 1: 0.3}), (1, {0: 0.6, 1: 0.4}), (1, {0: 0.1, 1: 0.9}), ('x
         (0, {0: 1.0, 1: 0.0})]
 
 
+_USER = {}
+
+
+def user_metrics():
+    """User subclasses of river metrics with sklearn-style sugar: metric(y_true, y_pred) updates and returns the value. They
+    are river metrics (isinstance) AND callable; used as a loss they must be treated as metrics (wrapped, reverted, negated)."""
+    if not _USER:
+        from river import metrics
+
+        def sugar(base):
+            class Callable_(base):
+                def __call__(self, y_true, y_pred):
+                    self.update(y_true, y_pred)
+                    return self.get()
+            Callable_.__name__ = Callable_.__qualname__ = 'UserCallable' + base.__name__
+            return Callable_
+        for base in (metrics.MAE, metrics.Accuracy, metrics.CrossEntropy, metrics.MacroF1):
+            c = sugar(base)
+            _USER[c.__name__] = c
+    return _USER
+
+
+def metric_class(name):
+    from river import metrics
+    return user_metrics()[name] if name in user_metrics() else getattr(metrics, name)
+
+
 def discover():
     from river import metrics
     from river.metrics.base import Metric
@@ -41,6 +68,12 @@ def discover():
             except Exception:
                 continue
             out.append(name)
+    for name, c in user_metrics().items():
+        try:
+            validate_loss_function(c())
+            out.append(name)
+        except Exception:
+            continue
     return out
 
 
@@ -78,7 +111,7 @@ class State:
         from river import metrics
         from ixai.utils.validators.loss import validate_loss_function
         self.name = name
-        self.cls = getattr(metrics, name)
+        self.cls = metric_class(name)
         self.metric = self.cls()
         self.A = validate_loss_function(self.metric)
         self.B = validate_loss_function(self.metric)
